@@ -122,6 +122,7 @@ func c09Run(c *core.C) {
 		// hostile source tokens (a block using a symbol index nothing defines yet, completed by a
 		// later block): the sealed copy used in memory authorizes like its source (shared with C02)
 		ds := gen.NewScenario(r, 2, scenOpts)
+		countBig(c, ds)
 		if dt, err := buildScenarioToken(c.Seed, fmt.Sprintf("c09-dang-%d", c.Idx), ds.Blocks); err == nil {
 			c02Dangling(c, dt, ds.Auth)
 		}
